@@ -529,29 +529,22 @@ impl PendingEntryList {
         count: usize,
         consumer: Option<&str>
     ) -> Vec<PendingEntry> {
-        let iter: Box<dyn Iterator<Item = &PendingEntry>> = if let Some(consumer_name) = consumer {
-            // Filter by consumer
-            if let Some(consumer_ids) = self.entries_by_consumer.get(consumer_name) {
-                Box::new(
-                    consumer_ids.iter()
-                        .filter_map(|id| self.entries_by_id.get(id))
-                )
-            } else {
-                Box::new(std::iter::empty())
-            }
-        } else {
-            // All entries in range
-            let start = start.unwrap_or(StreamId::min());
-            let end = end.unwrap_or(StreamId::max());
-            
-            Box::new(
-                self.entries_by_id
-                    .range(start..=end)
-                    .map(|(_, entry)| entry)
-            )
-        };
+        let start = start.unwrap_or(StreamId::min());
+        let end = end.unwrap_or(StreamId::max());
         
-        iter.take(count).cloned().collect()
+        // An inverted range holds nothing (BTreeMap::range would panic on it)
+        if start > end {
+            return Vec::new();
+        }
+        
+        // Entries in range in ID order, optionally only those owned by one consumer
+        self.entries_by_id
+            .range(start..=end)
+            .map(|(_, entry)| entry)
+            .filter(|entry| consumer.map_or(true, |name| entry.consumer == name))
+            .take(count)
+            .cloned()
+            .collect()
     }
     
     /// Get entries after a specific ID
